@@ -161,6 +161,19 @@ CHECKS["C05"] = dict(
          "to keep link attributes.",
     ref="6/C05")
 
+CHECKS["C06"] = dict(
+    technique="TLA+ object state machine (ObjectSM: a query is not a mutator) + every query of 15 classes replayed cold/warm before ALL other queries against a fresh twin, with content digests of caller-owned arrays + TLC validation (Val_C06: Pure, Repeatable, InputsUntouched)",
+    text="For every class under test (Network, directed Network, the recurrence-plot family, VisibilityGraph, InterSystemRecurrenceNetwork, "
+         "Surrogates, ClimateNetwork, ResNetwork, Tsonis/Spearman/MutualInfo climate networks on a shared ClimateData) and EVERY discovered "
+         "query q: the object is built from caller-owned arrays, q runs on a cold object (or after all queries, warm), is repeated, then all "
+         "queries run and are compared with all queries on a fresh twin that never ran q - so every ordered pair (q, b) is covered; digests "
+         "of caller-owned arrays and shared data objects are taken before construction and after.  TLC decides Pure, Repeatable and "
+         "InputsUntouched per case and names every interfering pair.",
+    note="Random queries are observed through a deterministic functional of their result (sorted values; spectral amplitudes at non-zero, "
+         "non-Nyquist frequencies).  Triples of queries are covered only through the warm mode (ALL, q, ALL).  Methods documented as "
+         "in-place (normalize_*) are not called on caller arrays.",
+    ref="6/C06")
+
 NOT_APPLICABLE = {
     "C20": "memory safety of compiled kernels is a property of concrete addresses, not of abstract state a TLA+ "
            "specification maintains; nothing binds a PlusCal transcription of index arithmetic to the compiled code "
